@@ -43,6 +43,14 @@ def shapes():
                        Stmt("out1", ex=["in"], oo=["dd1"], dyndep="dd1", extra_outs=["out1.imp"]),
                        Stmt("out2", ex=["in"], oo=["dd2"], dyndep="dd2", extra_outs=["out2.imp"])]),
     ]))
+    # a generated header becomes a checked-in one: its statement leaves the manifest, the file stays and is still
+    # what the object's recorded dependencies name
+    for kind, kw in (("gcc", {"deps": "gcc"}), ("depfile", {"depfile": True})):
+        S.append(("generated_header_becomes_source_" + kind, [
+            Variant("v0", [Stmt("gen.h", ex=["g.in"]), Stmt("foo.o", ex=["foo.c"], oo=["gen.h"], hidden=["gen.h"], **kw),
+                           Stmt("old.out", ex=["foo.c"])]),
+            Variant("v1", [Stmt("foo.o", ex=["foo.c"], hidden=["gen.h"], **kw)]),
+        ]))
     S.append(("no_input_edge", [
         Variant("v0", [Stmt("ver.h"), Stmt("obj", ex=["src"], im=["ver.h"]), Stmt("exe", ex=["obj"])]),
     ]))
